@@ -27,6 +27,7 @@ import (
 	"sort"
 	"strings"
 	"sync"
+	"sync/atomic"
 	"time"
 
 	"github.com/ProtonMail/go-crypto/openpgp"
@@ -344,8 +345,28 @@ func (e *Env) StopServer() {
 
 func (e *Env) BaseURL() string { return e.baseURL }
 
+// TransportRetries counts client/server attempts repeated after a transport-level
+// failure (no HTTP status received). Seen about once per 60 000 requests under heavy
+// machine load as "io: read/write on closed pipe" from the HTTP/2 client when the
+// server answers before the upload is complete; it could not be reproduced on demand,
+// so it is retried (and counted) rather than reported. A failure that persists over
+// three attempts is returned.
+var TransportRetries int64
+
 // SignServer is pipeline S (in-process client, real daemon over TLS).
-func (e *Env) SignServer(r *Req) (err error) {
+func (e *Env) SignServer(r *Req) error {
+	var err error
+	for attempt := 0; attempt < 3; attempt++ {
+		err = e.signServerOnce(r)
+		if err == nil || !strings.Contains(err.Error(), "closed pipe") {
+			return err
+		}
+		atomic.AddInt64(&TransportRetries, 1)
+	}
+	return err
+}
+
+func (e *Env) signServerOnce(r *Req) (err error) {
 	defer func() {
 		if p := recover(); p != nil {
 			err = fmt.Errorf("PANIC in client pipeline: %v", p)
